@@ -708,12 +708,11 @@ func (c *Ctx) parserOwnsBytes() {
 	}
 	sts := fieldStores(f, "buf")
 	okv := len(sts) > 0
+	copiedByClone := false
 	for _, st := range sts {
-		_, fresh := st.Val.(*ssa.MakeSlice)
-		if al, ok := st.Val.(*ssa.Slice); ok {
-			if a, ok := al.X.(*ssa.Alloc); ok && a.Comment == "makeslice" {
-				fresh = true
-			}
+		fresh, cloned := freshBytes(st.Val)
+		if cloned {
+			copiedByClone = true
 		}
 		if !fresh {
 			okv = false // every path: also a copy made only for some inputs leaves the others aliased
@@ -725,7 +724,7 @@ func (c *Ctx) parserOwnsBytes() {
 			copied = strings.Join(leaves(cl.Common().Args[1]), ",") == "#1"
 		}
 	}
-	c.check(okv && copied, R, "SetTopUppedArray copies the caller's bytes into its own buffer", f.Pos(), "s.buf = make(len(arr)); copy(s.buf, arr)", "SetTopUppedArray keeps the caller's slice as the bit string's buffer: clearing the completion tag then modifies the bag-of-cells bytes the caller passed in (a second parse of the same bytes yields different cells, the CRC no longer matches)")
+	c.check(okv && (copied || copiedByClone), R, "SetTopUppedArray copies the caller's bytes into its own buffer", f.Pos(), "s.buf = make(len(arr)); copy(s.buf, arr)", "SetTopUppedArray keeps the caller's slice as the bit string's buffer: clearing the completion tag then modifies the bag-of-cells bytes the caller passed in (a second parse of the same bytes yields different cells, the CRC no longer matches)")
 	c.floor(R, 1)
 }
 
@@ -801,4 +800,40 @@ func (c *Ctx) hasherState() {
 		c.check(okv && n == 1, R, "every level hash is computed with its own sha256 state", f.Pos(), "x := sha256.New() per hash", "newImmutableCell takes the hash state from a pool or a shared variable: an error exit that returns it without Reset (or concurrent hashing) makes the next, unrelated cell hash to a wrong value")
 	}
 	c.floor(R, 3)
+}
+
+// freshBytes: v is a byte slice made by this function: make(...), or one of the clone idioms
+// (append([]byte(nil), x...), append([]byte{}, x...), bytes.Clone(x), slices.Clone(x)); cloned reports
+// that the idiom also copies the source.
+func freshBytes(v ssa.Value) (fresh, cloned bool) {
+	switch x := v.(type) {
+	case *ssa.MakeSlice:
+		return true, false
+	case *ssa.Slice:
+		if a, ok := x.X.(*ssa.Alloc); ok && a.Comment == "makeslice" {
+			return true, false
+		}
+	case *ssa.Call:
+		if bi, ok := x.Call.Value.(*ssa.Builtin); ok && bi.Name() == "append" {
+			first := x.Call.Args[0]
+			if k, ok := first.(*ssa.Const); ok && k.IsNil() {
+				return true, true
+			}
+			if sl, ok := first.(*ssa.Slice); ok {
+				if a, ok := sl.X.(*ssa.Alloc); ok && (a.Comment == "slicelit" || a.Comment == "makeslice") {
+					return true, true
+				}
+			}
+			if cv, ok := first.(*ssa.Convert); ok {
+				if k, ok := cv.X.(*ssa.Const); ok && k.IsNil() {
+					return true, true
+				}
+			}
+		}
+		switch q := callQName(&x.Call); {
+		case q == "bytes.Clone" || strings.HasPrefix(q, "slices.Clone"):
+			return true, true
+		}
+	}
+	return false, false
 }
